@@ -337,3 +337,12 @@ package scan
 //@   loop 2 invariant next-todo2: forall j in i+1..len(o.scanners) :: msNext(o, j, ts - o.offset)
 //@   loop 2 invariant next-this2: currStep == 0 || o.step >= 1 ==> msNext(o, i, seriesTs - o.offset)
 //@   loop 2 invariant step-time-follows-the-previous-vector: (currStep >= 1 ==> seriesTs == vectors[currStep-1].T + o.step) && (currStep < len(vectors) ==> seriesTs == vectors[currStep].T)
+
+// loadSeries closure of the matrix selector, ownership only (C17): the metric name is dropped on a
+// private copy of the storage's label set.
+//@ func (*matrixSelector).loadSeries$1
+//@   requires o != nil && o.storage != nil && o.funcExpr != nil && o.funcExpr.Func != nil && o.vectorPool != nil
+//@   panics may
+//@   at function.DropMetricName assert[C17] storage-labels-are-copied-before-the-name-is-dropped: isnil($l) || $l.lowned
+//@   at line "o.scanners = make([]matrixScanner, len(series))" assume selector-returns-series: forall j in 0..len(series) :: series[j].Series != nil
+//@   loop 0 invariant (forall j in 0..len(series) :: series[j].Series != nil) && o != nil && o.funcExpr != nil && o.funcExpr.Func != nil && len(o.scanners) == len(series) && len(o.series) == len(series)
